@@ -73,13 +73,17 @@ theorem shaped_needs_agreeing_tags :
   constructor <;> rfl
 
 /-- **Elementwise results keep the grid (subclass route)**: a ufunc with a Field operand returns a
-Field on the grid of the leftmost Field operand, whatever the shape. -/
+Field on the grid of the leftmost Field operand, whatever the shape.  (A reading of the rule `oldPolicy.ufunc`
+encodes — definitional; that NumPy's view-casting + `__array_finalize__` follow this rule is what the driver's
+`run` op and the per-route correspondence on tags tie to the running code, and the oracle's node-level check
+`grid-lost` / `grid-changed` tests on the real code without the model.) -/
 theorem elementwise_keeps_grid_old (ts : List Tag) (a : Arr) (g : Nat) (h : leftGrid ts = some g) :
     oldPolicy.ufunc ts a = .field g := by
   simp [oldPolicy, h]
 
 /-- **Elementwise results keep the grid (wrapper route)**: the same, unless the raw result is 0-d
-(NumPy then hands back a scalar, which the wrapper leaves bare). -/
+(NumPy then hands back a scalar, which the wrapper leaves bare).  Definitional in the same sense as
+`elementwise_keeps_grid_old`; the evaluated forms are `elementwise_keeps_grid_route_old/_new`. -/
 theorem elementwise_keeps_grid_new (ts : List Tag) (a : Arr) (g : Nat) (h : leftGrid ts = some g)
     (hnd : a.shape ≠ []) : newPolicy.ufunc ts a = .field g := by
   have : a.shape.isEmpty = false := by
@@ -205,7 +209,10 @@ example : leftGrid [.plain, .scalar, .field 3] = some 3 := rfl
 /-- `np.where(c, a, b)` is the one modelled operation on which the routes attach *different* kinds
 of object: NumPy does not preserve the subclass (bare ndarray under the subclass route), while the
 wrapper's `__array_function__` wraps the result on the grid of the leftmost Field argument.
-The values are the same (`backends_same_values`). -/
+The values are the same (`backends_same_values`).  A reading of `Policy.func` (definitional); accepted
+divergence of the clause "results stay attached to the same grid": the harness does not apply its grid
+check to `np.where` and counts `.shaped` of such a result as `accepted-divergence:shaped-of-p/f` after
+checking that the real styles behave exactly as stated here. -/
 theorem where_grid_rule (ts : List Tag) (a : Arr) (g : Nat) (h : leftGrid ts = some g) :
     fnTag oldPolicy (Fn3.cls .where_) ts a = .plain ∧ fnTag newPolicy (Fn3.cls .where_) ts a = .field g := by
   simp [fnTag, Fn3.cls, oldPolicy, newPolicy, h]
